@@ -10,6 +10,15 @@ KS_NOTE = ("Trusted: TLC, the transcription of the Redis command reference in sp
            "(memdb/verif_inspect.go). B1 is exhaustive only within the instance bounds; B2 is sampled.")
 
 CHECKS = {
+    "C05": dict(cat="model_checking", ref="§C05", technique="concurrent histories recorded from the real code (verif lock/map hooks yield at seeded points) checked for linearizability by TLC against the TLA+ keyspace spec (TraceLin.tla, just-in-time linearization over candidate configurations); quiescent invariants (key counter, KEYS/EXISTS, structures, lock hygiene)",
+                text="Hundreds (quick) to thousands (thorough) of short concurrent histories on keys that collide on lock stripes and map shards are decided exactly by TLC: a history is accepted iff some sequential order of its commands, consistent with real time, explains every reply under Keyspace.Exec, including a sequential read-back of every key. A churn workload with 8-16 clients targets the shared key counter and KEYS under write load.",
+                note="Trusted: TLC, Keyspace spec, ticket ordering (taken before invoke / after return: can only make the check more permissive). Schedules are those the Go scheduler produces under seeded yields; the check is a sampled exploration of interleavings with an exact per-history decision."),
+    "C13": dict(cat="model_checking", ref="§C13", technique="linearizability by TLC (TraceLin.tla) of concurrent histories with MSET/RENAME/LMOVE/SMOVE as atomic operations; deadlock watchdog over histories mixing all multi-key commands; lock programmes observed through the verif hooks model-checked for deadlock with a TLA+ RWMutex model (Locks.tla) and counterexample schedules replayed with gates on the real code",
+                text="Atomicity: histories mixing the four atomic multi-key commands with single-key commands on colliding keys must be linearizable with those commands as single steps (nothing lost, duplicated or half-applied). Deadlock freedom: (a) stress under a watchdog; (b) the lock programme of every multi-key command form in every key/stripe configuration is observed on the real code, TLC checks every pair of observed programmes for deadlock on a model of Go's RWMutex, and any counterexample schedule is replayed on the real code with gates at the lock requests - only a reproduced real deadlock is a violation.",
+                note="Trusted: TLC, Locks.tla's RWMutex semantics (writer preference), the verif lock hook. Observed programmes are per configuration (data-dependent locking is covered only for the configurations observed)."),
+    "C19": dict(cat="model_checking", ref="§C19", technique="TLA+ PubSub.tla model-checked by TLC (MC_PubSub); sequential schedules, concurrent histories through Manager.Handle and over TCP on the real binary checked for linearizability against it by TLC (TracePubSub.tla)",
+                text="Every recorded SUBSCRIBE / PUBLISH / close and every push read by a subscriber is replayed against the sequential Pub/Sub spec: a push must be the next message published to that channel while the connection was subscribed (exactly once, in order, intact incl. CR LF, to no one else), the PUBLISH reply must be the fan-out at its linearization point, and at quiescence nothing may remain undelivered; publishers are watched for blocking and the process for death.",
+                note="Trusted: TLC, PubSub.tla, independent RESP decoder. Order is per channel; count leniency for closes overlapping a publish (and, over TCP, for closes the server has not yet noticed)."),
     "C06": dict(cat="model_checking", ref="§C06", technique="TLA+ keyspace model with explicit time (MC_Expire.tla: Tick action, deadline windows) model-checked by TLC; its transitions incl. Tick replayed on the real clock (ttltour) and random ttl programmes; recorded traces validated by TraceKs.tla",
                 text="TLC checks the clauses of C06 on the model (nothing expires early, nothing survives its deadline window, keys without deadline never expire, EXPIRE NX/XX conditions, PERSIST/overwrite clear, KEEPTTL keeps) and emits every transition; about a thousand programmes (path + command + probes over the next two seconds, for every branch label x model second x deadline class) run concurrently on the real clock, each on its own server, and every reply is validated against the spec with the observed second.",
                 note="Trusted: TLC, KsCore deadline-window semantics (one-second granularity as the property states), the wall clock of the host. Commands lacking a lazy expiry check are accepted as long as the active timer removes the key within the deadline second + 1."),
